@@ -205,6 +205,12 @@ def selftest(repo, seed=5):
             c = _Case(mod, pol, stims, gs=rng.randint(1, 2), seed=rng.randint(0, 9))
             for _ in range(rng.randint(0, 3)):             # some history through the real pop_buffer
                 c.q.pop_buffer(rng.randint(1, 5))
+            if rep == 1 and c.q._samples > 0:              # ... and a pause / resume, then more requests
+                tp = rng.randint(0, c.q._samples)
+                c.q.pause(tp)
+                c.q.pop_buffer(rng.randint(1, 3))
+                c.q.resume(tp + rng.randint(0, 2))
+                c.q.pop_buffer(rng.randint(1, 4))
             none = lambda q: ()
             ex.append(c.example('next_key', f'g_{names[pol]}_next_key', none, '', 'Z'))
             ex.append(c.example('next_key', 'g_next_key', none, '', 'Z'))
@@ -228,5 +234,24 @@ def selftest(repo, seed=5):
             progress = all(n + d >= 1 for _, n, _, d in stims)      # otherwise pop_buffer(n, decrement=False) never returns
             for m, dec in ((0, True), (2, True), (9, True), (30, True)) + (((4, False),) if progress else ()):
                 ex.append(c.example('pop_buffer', 'g_pop_buffer 80', lambda q, m=m, dec=dec: (m, dec), f'{m} {bl(dec)}', 'wave'))
+            # the pause / resume path
+            smp = c.q._samples
+            req_owner = 'InterleavedFIFOSignalQueue' if pol in ('inter_keep', 'inter_nokeep', 'blocked_random') else 'AbstractSignalQueue'
+            for tt in (None, 0, smp // 2, smp, smp + 2):
+                coq = 'None' if tt is None else f'(Some {tt})'
+                ex.append(c.example('pause', 'g_pause', lambda q, tt=tt: (tt,), coq, 'unit'))
+                ex.append(c.example('resume', 'g_resume', lambda q, tt=tt: (tt,), coq, 'unit'))
+            for tt in sorted({0, smp // 2, smp}):
+                ex.append(c.example('cancel', 'g_cancel', lambda q, tt=tt: (tt,), f'{tt} 0', 'unit'))
+                ex.append(c.example('requeue', f'g_{req_owner}_requeue', lambda q, tt=tt: (tt,), str(tt), 'unit'))
+                ex.append(c.example('requeue', 'g_requeue', lambda q, tt=tt: (tt,), str(tt), 'unit'))
+                for chk in (True, False):
+                    ex.append(c.example('rewind_samples', 'g_rewind_samples', lambda q, tt=tt, chk=chk: (tt + 1, chk), f'{tt + 1} {bl(chk)}', 'unit'))
+                for j, i in enumerate(c.q._generated[-2:]):
+                    lit = (f'{{| i_t0 := {zi(round(i["t0"]))}; i_dur := {zi(round(i["duration"]))}; i_key := {c.keys.index(i["key"])}; '
+                           f'i_dec := {bl(i["decrement"])} |}}')
+                    n = len(c.q._generated[-2:])
+                    ex.append(c.example('_ends_after', 'g__ends_after', lambda q, tt=tt, j=j, n=n: (q._generated[len(q._generated) - n + j], tt),
+                                        f'{lit} {tt}', 'bool'))
     text = '\n'.join(f'Example selftest_{k} :\n  {e}.\nProof. vm_compute. reflexivity. Qed.' for k, e in enumerate(ex))
     return text, len(ex)
